@@ -71,6 +71,8 @@ class EnumDef:
         elif maxd >= (1 << 31):
             # isize is 64 bit here, but be explicit for readability
             pass
+        if getattr(self, "enum_doc", ""):
+            out.append(f"/// {self.enum_doc}")
         out.append(f"pub enum {self.name} {{")
         for (n, d, c) in self.variants:
             # c: None | 'on' | 'off' | 'on_doc' | 'off_doc' (the cfg attribute preceded by a doc comment)
@@ -108,6 +110,17 @@ class EnumDef:
                     lit = f"$v_{n}" if getattr(self, "wrap_macro", False) else self.discr_text[n]
                 out.append(f"    {n} = {lit},")
         out.append("}")
+        if getattr(self, "macro_idents", False):
+            # enum name, base type, exhaustive value and variant names reach the attribute macro through macro_rules! fragments
+            params, margs, txt = [], [], "\n".join(out)
+            import re as _re
+            txt = txt.replace(f"#[bitenum(u{self.bits}", "#[bitenum($vbase", 1); params.append("$vbase:ident"); margs.append(f"u{self.bits}")
+            if self.exhaustive in ("true", "false"):
+                txt = _re.sub(r"(exhaustive\s*[=:]\s*)(true|false)", r"\1$vexh", txt, count=1); params.append("$vexh:literal"); margs.append(self.exhaustive)
+            txt = txt.replace(f"pub enum {self.name} {{", "pub enum $vname {", 1); params.append("$vname:ident"); margs.append(self.name)
+            for i, (n, d, c) in enumerate(self.variants):
+                txt = _re.sub(rf"(?m)^(\s+){n}( =|,)", rf"\1$vv{i}\2", txt, count=1); params.append(f"$vv{i}:ident"); margs.append(n)
+            out = ["macro_rules! vmk_enum_idents { (" + ", ".join(params) + ") => {"] + ["    " + l for l in txt.split("\n")] + ["} }", "vmk_enum_idents!(" + ", ".join(margs) + ");"]
         if getattr(self, "wrap_macro", False):
             ns = list(self.discr_text)
             out = ["macro_rules! vmk_enum { (" + ", ".join(f"$v_{n}:literal" for n in ns) + ") => {"] + ["    " + l for l in out] + ["} }", "vmk_enum!(" + ", ".join(self.discr_text[n] for n in ns) + ");"]
@@ -118,7 +131,7 @@ class EnumDef:
         return "\n".join(out)
 
     def sig(self):
-        return ("enum", self.bits, tuple((d, c) for (_, d, c) in self.variants), self.exhaustive, self.legacy, self.repr, self.lit_form, tuple(sorted(getattr(self, "discr_text", {}).items())), getattr(self, "wrap_macro", False))
+        return ("enum", self.bits, tuple((d, c) for (_, d, c) in self.variants), self.exhaustive, self.legacy, self.repr, self.lit_form, tuple(sorted(getattr(self, "discr_text", {}).items())), getattr(self, "wrap_macro", False), getattr(self, "macro_idents", False), getattr(self, "enum_doc", ""))
 
     # ---- rule oracle, property C10 ------------------------------------------------------------
     def rule_valid(self) -> bool:
@@ -424,6 +437,10 @@ class Layout:
         if self.macro_idents:
             body = out[head:]
             # the base type and (once) an access specifier travel through the macro as identifiers too
+            for k_, l_ in enumerate(body):
+                if l_.endswith(f"struct {self.name} {{"):
+                    body[k_] = l_.replace(f"struct {self.name} {{", "struct $vname {")
+                    mparams.append("$vname:ident"); margs.append(self.name)
             bt = self.base_ty()
             if body[0].startswith(f"#[bitfield({bt}"):
                 body[0] = body[0].replace(f"#[bitfield({bt}", "#[bitfield($vbase", 1)
